@@ -1,6 +1,6 @@
 (* C07 — Bounded oscillators stay inside their documented range. Statements only (exact arithmetic: slack 0). *)
 From Coq Require Import Reals.
-From TA Require Import Base Model XR Proofs.Ring Proofs.XBase Proofs.Wiring Proofs.Osc Proofs.XEma Proofs.XFast Proofs.XRsi.
+From TA Require Import Base Model XR Proofs.Ring Proofs.XBase Proofs.Wiring Proofs.Osc Proofs.XEma Proofs.XFast Proofs.XRsi Proofs.XEr.
 Open Scope R_scope.
 
 (* FastStochastic on finite prices: every output is a finite value in [0,100] (it is the formula on the extremes of
@@ -23,3 +23,8 @@ Proof. exact rsi_range. Qed.
 Theorem C07_slow_range : forall p q s xs, slow_new XROps p q = Ok s ->
   Forall (fun o => exists r, o = Fin r /\ 0 <= r <= 100) (slow_outs XROps s (map Fin xs)).
 Proof. exact slow_range. Qed.
+
+(* EfficiencyRatio: whenever the path length (the reference denominator) is non-zero the ratio is a finite value in [0,1]
+   (triangle inequality along the window path) *)
+Theorem C07_er_range : forall p h x, plen (er_path p h x) <> 0 -> exists r, er_spec p h x = Fin r /\ 0 <= r <= 1.
+Proof. exact er_range. Qed.
